@@ -632,21 +632,14 @@ theorem decodeHeaderSize_enc (n : Nat) (h : n < u64) (tail : Bytes) :
 /-- A delta as git writes it — both size headers, then the instructions — applied to its base the
 way `resolve_deltas` does it yields exactly the target the instructions describe. -/
 theorem applyDelta_enc (base : Bytes) (instrs : List Instr) (hwf : ∀ i ∈ instrs, i.Wf base)
-    (hb : base.length < u64) (ht : (sem base instrs).length < u64)
-    (hne : base ≠ [] ∨ sem base instrs ≠ []) :
+    (hb : base.length < u64) (ht : (sem base instrs).length < u64) :
     applyDelta base (encDelta base instrs) = .ok (sem base instrs) := by
   unfold applyDelta encDelta
   rw [decodeHeaderSize_enc base.length hb]
   simp only
   rw [List.drop_left, decodeHeaderSize_enc _ ht]
   simp only
-  rw [if_neg (by omega)]
-  have hnz : ¬ (base.length = 0 ∧ (sem base instrs).length = 0) := by
-    intro ⟨h1, h2⟩
-    rcases hne with h | h
-    · exact h (List.length_eq_zero_iff.mp h1)
-    · exact h (List.length_eq_zero_iff.mp h2)
-  rw [if_neg hnz, List.take_length]
+  rw [if_neg (by omega), List.take_length]
   have hd : List.drop ((encSize 10 base.length).length + (encSize 10 (sem base instrs).length).length)
       (encSize 10 base.length ++ (encSize 10 (sem base instrs).length ++ encInstrs instrs)) = encInstrs instrs := by
     rw [← List.append_assoc, ← List.length_append, List.drop_left]
